@@ -21,6 +21,7 @@ impl DbDocument for Proc {
         map.insert("timestamp".to_string(), json!(self.timestamp));
         map.insert("model".to_string(), json!(self.model.clone()));
         map.insert("env".to_string(), json!(self.env.clone()));
+        map.insert("err".to_string(), json!(self.err.clone()));
         Ok(map)
     }
 }
